@@ -21,15 +21,10 @@ Definition pvalid (i : N) (p : prim) (s : st) : Prop :=
   | _ => True
   end.
 
-(* [psafe]: a check that leaves its service carries the name that service is registered under
-   (ensureCheckTxn bumps the service it leaves under the name stored in the check row) *)
-Definition psafe (p : prim) (s : st) : Prop :=
-  match p with
-  | PChkPut n cid x =>
-    forall o sv, checks s !! (n, cid) = Some o -> c_svc o <> c_svc x -> c_svc o <> "" ->
-                 services s !! (n, c_svc o) = Some sv -> sv_name sv = c_svcname o
-  | _ => True
-  end.
+(* [psafe]: since 77429de no primitive needs a side condition for the health views: a check that
+   leaves its service bumps both the name its row carries and the service's current name.  The
+   predicate is kept (trivial) so that the statements of the earlier rounds still read the same. *)
+Definition psafe (p : prim) (s : st) : Prop := True.
 
 (* [pkeep]: the primitive keeps the checks' stored service names current: a registration does not
    rename a service id in place (its checks would keep the old name) *)
@@ -51,6 +46,8 @@ Fixpoint Safe (i : N) (ps : list prim) (s : st) : Prop :=
   | [] => True
   | p :: ps' => psafe p s /\ Safe i ps' (papply i p s)
   end.
+Lemma Safe_all i ps s : Safe i ps s.
+Proof. revert s. induction ps as [|p ps IH]; intros s; [exact I|split; [exact I|apply IH]]. Qed.
 Fixpoint Keep (i : N) (ps : list prim) (s : st) : Prop :=
   match ps with
   | [] => True
@@ -146,7 +143,7 @@ Proof.
   destruct HV as [Hp HV]. rewrite prun_cons. apply IH; [apply Bnd_papply; assumption|exact HV].
 Qed.
 Lemma Coherent_psafe p s : Coherent s -> psafe p s.
-Proof. intros HC. destruct p; try exact I. intros o sv Ho _ Hne Hsv. eapply HC; eassumption. Qed.
+Proof. intros _. exact I. Qed.
 
 Lemma Coherent_prun i ps s : Coherent s -> Valid i ps s -> Keep i ps s -> Coherent (prun i ps s).
 Proof.
@@ -416,7 +413,7 @@ Section traces3.
   Lemma kvs_set_ok k v f se lk upd s t :
     Valid i (kvs_set i k v f se lk upd s) t /\ Safe i (kvs_set i k v f se lk upd s) t.
   Proof.
-    unfold kvs_set. destruct (kvs s !! k) as [x|]; [destruct (kv_same _ _)|]; cbn; tauto.
+    unfold kvs_set. destruct (kvs s !! k) as [x|]; [destruct (kv_same _ _)|]; cbn; unfold psafe; tauto.
   Qed.
 
   Lemma ensure_check_shape n cs s ps :
@@ -463,8 +460,7 @@ Section traces3.
       destruct Hb as [->|(-> & Hc & Hs)]; [exact I|]. split; [|exact I].
       cbn [pvalid]. rewrite Hsv, Hc. exact Hs.
     - intros HC. apply Safe_app. split; [apply easy_Safe; eapply Forall_impl; [exact Ha|apply light_easy]|].
-      destruct Hb as [->|(-> & Hc & Hs)]; [exact I|]. split; [|exact I].
-      cbn [psafe]. rewrite Hck, Hsv. intros o sv Ho _ Hne Hsvl. eapply HC; eassumption.
+      apply Safe_all.
     - intros cid Hne. apply Forall_app. split; [eapply Forall_impl; [exact Ha|apply light_chk_other]|].
       destruct Hb as [->|(-> & _)]; repeat constructor. cbn. congruence.
     - apply Forall_app. split; [eapply Forall_impl; [exact Ha|apply light_svc_free]|].
